@@ -264,6 +264,7 @@ package core
 //@ func Canonicalize returns y, err
 //@   trusted
 //@   logged
+//@   ensures err != nil ==> plain(err)
 //@   modifies nothing
 //@   ensures err == nil ==> ref(y) == nil || fresh(y)
 
